@@ -27,13 +27,32 @@ META = {
                   "group law": "all pairs of on-curve points (symbolic coordinates) of y^2=x^3+7 over F_p, p in {11,13,19}; associativity p = 11",
                   "scalar mult": "toy group (p,q) = (43,31): coefficients symbolic in [-70, 200] (incl. negative, >= q)",
                   "encodings": "toy fields p in {43,67}: every point (sec compressed/uncompressed, xonly round trip); every 33-byte and 65-byte "
-                               "string whose coordinate bytes are < 2^16 (symbolic prefix byte + symbolic low coordinate bytes)"},
+                               "string whose coordinate bytes are < 2^16 (symbolic prefix byte + symbolic low coordinate bytes)",
+                  "history (O6)": "toy group (43,31): the 65-byte parse obligations and the constructor obligation (S256Point(x, y) with x, y symbolic "
+                                  "in [-2, p+2]; Point(FE(x), FE(y)) with x, y in F_p: accepted iff on the curve) after EVERY sequence of 1 call (catalogue "
+                                  "'full': k*R / R + k with k symbolic in [-2, q+2], R + R, R + G, 11 wrong-typed scalars / addends (float, None, str, bytes, "
+                                  "list, Fraction, complex - they raise before or inside the double-and-add loop or not at all), 6 undecodable strings, 6 "
+                                  "refused coordinate pairs) and of 2 calls (catalogue 'small': k in [1,2], 3 wrong-typed operands, 1 bad string, 1 bad "
+                                  "pair); 33-byte parse after 1 call ('small'); results of the valid earlier calls are checked against the reference "
+                                  "group law too. secp256k1 itself (real class and constants): 1 earlier call ('small', on the real G) then parse of a "
+                                  "symbolic prefix byte + sec(2G) unaltered or with the lowest bit of any one of its 64 coordinate bytes flipped"},
         "thorough": {"field": "all primes <= 31", "group law": "all primes 5..61 and 223", "scalar mult": "all six prime-order toy groups, "
-                     "coefficients in [-300, 700]", "encodings": "all six toy fields"}},
+                     "coefficients in [-300, 700]", "encodings": "all six toy fields",
+                     "history (O6)": "(43,31): 1 call with scalars in [-q-1, 2q+1], 2 calls 'full', 3 calls 'small'; (67,79), (79,67): as quick; 33-byte "
+                                     "parse after 1 call 'full' / 2 calls 'small'; secp256k1: 2 calls 'small', any single bit of any coordinate byte flipped"}},
     "outside": ["symbolic arithmetic at the real 256-bit field (256x256-bit modular multiplication is out of reach of the solver): the real "
-                "constants are checked concretely only (O5)", "cecc.py"],
+                "constants are checked concretely only (O5); in O6-history-real the coordinate bytes are concretised before the field arithmetic "
+                "(one path per flipped bit), only the prefix byte and the earlier scalars stay symbolic", "cecc.py",
+                "O6: an exception raised by an EARLIER call with a wrong-typed operand / undecodable string is an accepted outcome (the property says "
+                "nothing about it, nor about what 0.0 * P returns); what is demanded is that the calls AFTER it still reject what does not encode a "
+                "curve point, accept what does, and that valid earlier calls agree with the reference group law. For the constructor any exception "
+                "counts as a refusal", "histories longer than 2 (quick) / 3 (thorough) calls; earlier calls outside the catalogue (verify/sign "
+                "helpers, BaseException such as KeyboardInterrupt injected inside a call)"],
     "stubs": ["module constants P, N, G of buidl.pecc re-bound to a toy curve for O3/O4"],
-    "assumptions": ["the classes behave uniformly in the modulus (they take it as a parameter or module constant)"],
+    "assumptions": ["the classes behave uniformly in the modulus (they take it as a parameter or module constant)",
+                    "every path / replayed witness starts from the process state right after import: besides the containers restored by symx.loader, "
+                    "immutable module- and class-level attributes of buidl.pecc are restored at the start of each toy/real harness (_fresh_process), "
+                    "so only the history executed inside the path is carried into the later calls"],
 }
 MANIFEST = {"technique": "symbolic execution of the real FieldElement/Point/S256Point code with symbolic field elements and coordinates over toy "
                          "prime fields; axioms and the chord-tangent relation decided by z3 bit-vectors"}
@@ -383,11 +402,47 @@ def replay_group(w):
 
 # ---------------------------------------------------------------------------------------- O3 scalar multiplication on toy groups
 
+# Every explored path (and every replayed witness) stands for a run in a fresh process.  symx.loader restores the library's module- and
+# class-level *containers* at the start of a path; immutable module- and class-level attributes (flags, counters, cached constants) that
+# the code under test may re-bind are restored here, so that only the history executed INSIDE the path / witness is what the later calls see.
+_IMMUTABLE = (bool, int, float, str, bytes, tuple, type(None))
+_SCALAR_BASE = {}
+
+
+def _scalar_state(m):
+    out = {}
+    for k, v in list(vars(m).items()):
+        if k.startswith("__"):
+            continue
+        if isinstance(v, type) and getattr(v, "__module__", None) == m.__name__:
+            for kk, vv in list(vars(v).items()):
+                if not kk.startswith("__") and type(vv) in _IMMUTABLE:
+                    out[(k, kk)] = vv
+        elif type(v) in _IMMUTABLE:
+            out[(None, k)] = v
+    return out
+
+
+def _fresh_process(m):
+    base = _SCALAR_BASE.get(m.__name__)
+    if base is None:
+        _SCALAR_BASE[m.__name__] = _scalar_state(m)   # first use in this process: the state right after import
+        return
+    now = _scalar_state(m)
+    for key in set(now) | set(base):
+        owner = m if key[0] is None else getattr(m, key[0])
+        if key not in base:
+            delattr(owner, key[1])
+        elif key not in now or now[key] is not base[key]:
+            setattr(owner, key[1], base[key])
+
+
 class Toy:
     """re-bind pecc.P / N / G (and A, B stay 0, 7) to a toy curve of prime order"""
 
     def __init__(self, p, q):
         self.m = pecc()
+        _fresh_process(self.m)
         self.p, self.q = p, q
         self.saved = (self.m.P, self.m.N, self.m.G)
         self.m.P, self.m.N = p, q
@@ -527,11 +582,13 @@ def _on_curve(p, x, y):
     return ((y * y - x * x * x - 7) % p) == 0
 
 
-def _sec_parse_path(p, q, size):
-    """symbolic candidate encodings: prefix byte + coordinate bytes (the two low bytes of each coordinate symbolic, the rest zero)"""
+def _sec_parse_path(p, q, size, hist=None):
+    """symbolic candidate encodings: prefix byte + coordinate bytes (the two low bytes of each coordinate symbolic, the rest zero);
+    hist = (k, first, catalogue): after a history of k earlier calls (O6)"""
     t = Toy(p, q)
     try:
         m = t.m
+        history = _history(t, *hist) if hist else None
         pre = SI.var("prefix", 0, 255)
         xl = SBytes.sym("xl", 2)
         raw = SBytes([pre]) + b"\x00" * 30 + xl
@@ -540,7 +597,10 @@ def _sec_parse_path(p, q, size):
             raw = raw + b"\x00" * 30 + yl
 
         def wit(env):
-            return {"p": p, "q": q, "raw": conc_value(raw, env).hex()}
+            w = {"p": p, "q": q, "raw": conc_value(raw, env).hex()}
+            if history:
+                w["history"] = history(env)
+            return w
         try:
             pt = m.S256Point.parse(raw)
             acc = True
@@ -589,9 +649,31 @@ def ob_encodings(p, q):
 def replay_enc(w):
     from buidl import pecc as m
     p, q = w["p"], w["q"]
+    _fresh_process(m)
     saved = (m.P, m.N, m.G)
+    real = (p, q) == (saved[0], saved[1])   # O6-history-real: the secp256k1 constants themselves
     m.P, m.N = p, q
     try:
+        hbad = []
+        if w.get("history"):
+            g = (m.G.x.num, m.G.y.num) if real else curve_points(p)[0]
+            m.G = m.S256Point(*g)
+            hbad = _replay_history(m, p, q, g, w["history"])
+            if hbad or not ("raw" in w or "xy" in w):
+                return {"violated": bool(hbad), "observed": f"F_{p} order {q} history {w['history']}: {hbad}"}
+        if "xy" in w:
+            x, y = w["xy"]
+            try:
+                if w["cls"] == "S256Point":
+                    pt = m.S256Point(x, y)
+                else:
+                    pt = m.Point(m.FieldElement(x, p), m.FieldElement(y, p), m.FieldElement(0, p), m.FieldElement(7, p))
+                acc = True
+            except Exception:
+                acc = False
+            valid = 0 <= x < p and 0 <= y < p and (y * y - x ** 3 - 7) % p == 0
+            ok = (acc == valid) and (not acc or _tup(pt) == (x, y))
+            return {"violated": not ok, "observed": f"F_{p}: after {w.get('history')}: {w['cls']}({x}, {y}) accepted={acc} valid={valid}"}
         if "pt" in w:
             x, y = w["pt"]
             P1 = m.S256Point(x, y)
@@ -616,9 +698,230 @@ def replay_enc(w):
             y = int.from_bytes(raw[33:], "big")
             valid = raw[0] == 4 and x < p and y < p and (y * y - x ** 3 - 7) % p == 0
             ok = (acc == valid) and (not acc or _tup(pt) == (x, y))
-        return {"violated": not ok, "observed": f"F_{p}: parse({raw[:1].hex()}..x={x}) accepted={acc} valid={valid}", "prefix": raw[0]}
+        return {"violated": not ok, "observed": f"F_{p}: " + (f"after {w['history']}: " if w.get("history") else "") +
+                f"parse({raw[:1].hex()}..x={x}) accepted={acc} valid={valid}", "prefix": raw[0]}
     finally:
         m.P, m.N, m.G = saved
+        _fresh_process(m)
+
+
+# ---------------------------------------------------------------------------------------- O6 the same obligations after a history of calls
+# "byte strings that do not encode a curve point are rejected" (and the constructor refuses off-curve coordinates) is claimed for every
+# moment of a process, not only for a fresh one: the rejection obligations of O4 are re-run after every sequence of up to k earlier calls of
+# the public point API - valid ones (symbolic scalars) and ones that RAISE part-way (operands of the wrong type, undecodable strings,
+# off-curve coordinates).  An exception from such an earlier call is an accepted outcome; what is demanded is the behaviour AFTERWARDS.
+
+from fractions import Fraction  # noqa: E402
+
+WRONG = {"2.5": 2.5, "None": None, "'%d'": "%d", "0.0": 0.0, "Fraction(5, 2)": Fraction(5, 2), "-1.5": -1.5, "1e30": 1e30, "'2'": "2", "b'%d'": b"%d",
+         "[1]": [1], "1j": 1j}   # raise before / inside the double-and-add loop, or not at all; the first entries are the quick catalogue
+WRONG_KEYS = list(WRONG)
+HIST_OPS = ("rmul", "plus_int", "add", "rmul_wrong", "add_wrong", "parse_bad", "ctor_bad")
+CATALOGUE = {"wide": {"scalars": "wide", "wrong": len(WRONG), "bad": 6, "others": 2},      # scalars [-q-1, 2q+1]
+             "full": {"scalars": "full", "wrong": len(WRONG), "bad": 6, "others": 2},      # scalars [-2, q+2]
+             "small": {"scalars": (1, 2), "wrong": 3, "bad": 1, "others": 1}}
+
+
+def _bad_strings(p, g):
+    gx, gy = g
+    x32 = lambda v: v.to_bytes(32, "big")  # noqa
+    nonres = next(x for x in range(p) if pow(x ** 3 + 7, (p - 1) // 2, p) == p - 1)   # Euler criterion
+    return [b"", b"\x05" + x32(gx), b"\x04" + x32(gx) + x32((gy + 1) % p), b"\x02" + x32(nonres), b"\x04" + x32(gx), b"\x02" + x32(p + gx)]
+
+
+def _bad_coords(p, g):
+    gx, gy = g
+    return [(gx, (gy + 1) % p), ((gx + 1) % p, gy) if ((gy * gy - (gx + 1) ** 3 - 7) % p) else (gx, (gy + 2) % p), (p, 0), (gx, p + gy), (-1, gy), (None, gy)]
+
+
+def _hist_step(m, p, q, g, R, rt, d, val):
+    """one earlier call on the running point R (reference value rt).  d = JSON description of the call, val(name) = value of a scalar.
+    Returns (R, rt, problem or None); shared by the symbolic harness and the replay (same code, native classes there)."""
+    op = d["op"]
+    if op in ("rmul", "plus_int", "add"):
+        try:
+            if op == "rmul":
+                R2 = val(d["a"]) * R
+            elif op == "plus_int":
+                R2 = R + val(d["a"])
+            else:
+                R2 = R + (R if d["other"] == "self" else m.G)
+        except Exception as ex:
+            return R, rt, f"{op} on valid operands raised {type(ex).__name__}"
+        return R2, None, None
+    try:
+        if op == "rmul_wrong":
+            WRONG[d["w"]] * R
+        elif op == "add_wrong":
+            R + WRONG[d["w"]]
+        elif op == "parse_bad":
+            m.S256Point.parse(_bad_strings(p, g)[d["i"]])
+        elif op == "ctor_bad":
+            m.S256Point(*_bad_coords(p, g)[d["i"]])
+    except Exception:
+        pass
+    return R, rt, None
+
+
+def _hist_ref(p, q, g, rt, d, a):
+    """reference value of the running point after a valid call (plain integers)"""
+    if d["op"] == "rmul":
+        return ref_mul(p, a % q, rt)
+    if d["op"] == "plus_int":
+        return ref_add(p, rt, ref_mul(p, a % q, g))
+    if d["op"] == "add":
+        return ref_add(p, rt, rt if d["other"] == "self" else g)
+    return rt
+
+
+def _history(t, k, first, cat):
+    """run k earlier calls chosen by the solver out of the catalogue (first = kind of the first one, a shape parameter);
+    returns env -> JSON history"""
+    m, p, q, g = t.m, t.p, t.q, t.g
+    cat = CATALOGUE[cat]
+    srange = {"wide": (-q - 1, 2 * q + 1), "full": (-2, q + 2)}.get(cat["scalars"], cat["scalars"])
+    R, rt = m.G, g
+    descs = []
+    for i in range(k):
+        if i == 0 and first is not None:
+            kind = first
+        else:
+            kind = HIST_OPS[core.concretize(SI.var(f"h{i}.op", 0, len(HIST_OPS) - 1))]
+        d = {"op": kind}
+        a = None
+        if kind in ("rmul", "plus_int"):
+            a = SI.var(f"h{i}.a", srange[0], srange[1])
+            d["a"] = f"h{i}.a"
+        elif kind == "add":
+            d["other"] = ("self", "G")[core.concretize(SI.var(f"h{i}.o", 0, cat["others"] - 1))]
+        elif kind in ("rmul_wrong", "add_wrong"):
+            d["w"] = WRONG_KEYS[core.concretize(SI.var(f"h{i}.w", 0, cat["wrong"] - 1))]
+        elif kind == "parse_bad":
+            d["i"] = core.concretize(SI.var(f"h{i}.s", 0, cat["bad"] - 1))
+        elif kind == "ctor_bad":
+            d["i"] = core.concretize(SI.var(f"h{i}.c", 0, cat["bad"] - 1))
+        descs.append(d)
+
+        def hw(env, n=len(descs)):
+            return {"p": p, "q": q, "history": [dict(x, a=env[x["a"]]) if "a" in x else x for x in descs[:n]]}
+        R, _, prob = _hist_step(m, p, q, g, R, rt, d, lambda name: a)
+        if prob:
+            check(False, "earlier call: " + prob, witness=hw)
+            raise core.PathAbort()
+        if kind in ("rmul", "plus_int", "add"):
+            rt = _hist_ref(p, q, g, rt, d, core.concretize(a) if a is not None else None)
+            check(_tup(R) == rt, f"{kind} after earlier calls differs from the reference group law", witness=hw)
+    return lambda env: [dict(x, a=env[x["a"]]) if "a" in x else x for x in descs]
+
+
+def _replay_history(m, p, q, g, history):
+    """run the history of a witness on the native classes (m.P, m.N, m.G already re-bound); returns the list of wrong valid calls"""
+    R, rt = m.G, g
+    bad = []
+    for d in history:
+        R, _, prob = _hist_step(m, p, q, g, R, rt, d, lambda a: a)
+        if prob:
+            bad.append(prob)
+            break
+        if d["op"] in ("rmul", "plus_int", "add"):
+            rt = _hist_ref(p, q, g, rt, d, d.get("a"))
+            if _tup(R) != rt:
+                bad.append(f"{d['op']} gave {_tup(R)}, reference {rt}")
+    return bad
+
+
+def _ctor_path(p, q, k, first, cat):
+    """constructor with symbolic integer coordinates (also outside [0, p-1]) after a history: accepted iff they are a point of the curve"""
+    t = Toy(p, q)
+    try:
+        m = t.m
+        hist = _history(t, k, first, cat)
+        cls = ("S256Point", "Point")[core.concretize(SI.var("cls", 0, 1))]
+        lo, hi = (-2, p + 2) if cls == "S256Point" else (0, p - 1)
+        x = SI.var(cls + ".x", lo, hi)
+        y = SI.var(cls + ".y", lo, hi)
+
+        def wit(env):
+            return {"p": p, "q": q, "history": hist(env), "cls": cls, "xy": [env[cls + ".x"], env[cls + ".y"]]}
+        try:
+            if cls == "S256Point":
+                pt = m.S256Point(x, y)
+            else:
+                pt = m.Point(m.FieldElement(x, p), m.FieldElement(y, p), m.FieldElement(0, p), m.FieldElement(7, p))
+            acc = True
+        except Exception:
+            acc = False
+        valid = s_and(x >= 0, x < p, y >= 0, y < p, _on_curve(p, x, y))
+        if not acc:
+            check(s_not(valid), "constructor refused the coordinates of a curve point", witness=wit)
+            return "rejected"
+        check(valid, "constructor accepted coordinates that are not a point of the curve", witness=wit)
+        check(s_and(pt.x.num == x, pt.y.num == y), "constructed point has other coordinates", witness=wit)
+        return "accepted"
+    finally:
+        t.close()
+
+
+class RealCurve:
+    """secp256k1 itself (nothing re-bound)"""
+
+    def __init__(self):
+        self.m = pecc()
+        _fresh_process(self.m)
+        self.p, self.q, self.g = self.m.P, self.m.N, (self.m.G.x.num, self.m.G.y.num)
+
+
+def _real_parse_path(k, first, cat, nbits):
+    """the REAL S256Point class and constants: after a history, parse of a 65-byte string = symbolic prefix byte + the encoding of 2G with
+    one bit (symbolic position, concretised: the 256-bit field arithmetic stays concrete) of one coordinate byte flipped, or unaltered"""
+    t = RealCurve()
+    m, p = t.m, t.p
+    history = _history(t, k, first, cat)
+    x0, y0 = ref_mul(p, 2, t.g)
+    body = bytearray(x0.to_bytes(32, "big") + y0.to_bytes(32, "big"))
+    pos = core.concretize(SI.var("pos", 0, 64))
+    if pos < 64:
+        body[pos] ^= 1 << core.concretize(SI.var("bit", 0, nbits - 1))
+    body = bytes(body)
+    pre = SI.var("prefix", 0, 255)
+    raw = SBytes([pre]) + body
+
+    def wit(env):
+        return {"p": p, "q": t.q, "raw": conc_value(raw, env).hex(), "history": history(env)}
+    try:
+        pt = m.S256Point.parse(raw)
+        acc = True
+    except (ValueError, RuntimeError):
+        acc = False
+    x, y = int.from_bytes(body[:32], "big"), int.from_bytes(body[32:], "big")
+    valid = x < p and y < p and (y * y - x ** 3 - 7) % p == 0
+    if not acc:
+        check(s_not(s_and(pre == 4, valid)), "valid uncompressed encoding rejected (secp256k1)", witness=wit)
+        return "rejected"
+    check(s_and(pre == 4, valid), "65-byte string that does not encode a point of secp256k1 accepted", witness=wit)
+    check(s_and(pt.x.num == x, pt.y.num == y), "decoded coordinates differ (secp256k1)", witness=wit)
+    return "accepted"
+
+
+def ob_history_real(first, k, cat, nbits):
+    r = sym_run(lambda: _real_parse_path(k, first, cat, nbits), timeout_ms=60000, max_paths=400000, max_violations=12,
+                expect_classes=["accepted", "rejected"])
+    r["sample"] = {"curve": "secp256k1 (real constants and class)", "history": f"{first} then {k - 1} more calls; catalogue '{cat}': {CATALOGUE[cat]}",
+                   "then": f"parse of prefix byte (symbolic) + sec(2G) with one of the low {nbits} bits of one of the 64 coordinate bytes flipped"}
+    return r
+
+
+def ob_history(p, q, target, first, k, cat):
+    if target == "ctor":
+        r = sym_run(lambda: _ctor_path(p, q, k, first, cat), timeout_ms=60000, max_paths=400000, max_violations=12,
+                    expect_classes=["accepted", "rejected"])
+    else:
+        r = sym_run(lambda: _sec_parse_path(p, q, target, hist=(k, first, cat)), timeout_ms=60000, max_paths=400000, max_violations=12,
+                    expect_classes=["accepted", "rejected"])
+    r["sample"] = {"toy group": f"y^2=x^3+7 / F_{p}, order {q}", "history": f"{first} then {k - 1} more calls out of {list(HIST_OPS)}; catalogue '{cat}': {CATALOGUE[cat]}; "
+                   f"wrong-typed operands {WRONG_KEYS}",
+                   "then": "S256Point(x, y) / Point(x, y) with symbolic coordinates" if target == "ctor" else f"parse of a symbolic {target}-byte string"}
+    return r
 
 
 # ---------------------------------------------------------------------------------------- O5 constants (trusted base, concrete)
@@ -656,4 +959,17 @@ def obligations(tier):
             for k0 in range(span[0], span[1] + 1, 45):
                 obs.append(Ob("O3-point-plus-int", ob_plusint, {"p": p, "q": qq, "lo": k0, "hi": min(k0 + 44, span[1])}, replay="smul", budget_s=2400))
         obs.append(Ob("O4-encodings", ob_encodings, {"p": p, "q": qq}, replay="enc", budget_s=2400))
+    for i, (p, qq) in enumerate(PRIME_ORDER[:1] if q else PRIME_ORDER[:3]):
+        shapes = [(1, "full"), (2, "small")] if q else ([(1, "wide"), (2, "full"), (3, "small")] if i == 0 else [(1, "full"), (2, "small")])
+        for target in (65, 33, "ctor"):
+            tshapes = shapes
+            if target == 33:   # 64 paths per history (one per x): shorter histories
+                tshapes = [(1, "small")] if q else [(1, "full"), (2, "small")]
+            for k, cat in tshapes:
+                for first in HIST_OPS:
+                    obs.append(Ob("O6-history", ob_history, {"p": p, "q": qq, "target": target, "first": first, "k": k, "cat": cat},
+                                  replay="enc", budget_s=2400))
+    for first in HIST_OPS:
+        obs.append(Ob("O6-history-real", ob_history_real, {"first": first, "k": 1 if q else 2, "cat": "small", "nbits": 1 if q else 8},
+                      replay="enc", budget_s=2400))
     return obs
